@@ -231,6 +231,13 @@ def run(repo, R):
             R.ok("LIN", f2.site, "coef_s * NPC_s once per shell")
             R.ok("GATHER", f2.site, "every factor selected with its own direction's components")
     report(R, f2, findings)
+    # the property is stated for Cartesian, spherical and mixed bases and with a transformation: the assembly of this operator's base
+    # class (norm once per index, own Cartesian->spherical matrix, segment-major blocks, transformation on every index) is part of it
+    from ..report import compose as _compose
+    from . import c09 as _c09
+    _bases = ('base_two_symm',)
+    _compose(R, "C09", _c09.run, repo, keep=lambda fd: any(b_ in (fd.where or "") or b_ in fd.site for b_ in _bases) or "spherical.py" in (fd.where or ""),
+             why="results for spherical / mixed / transformed bases are assembled by " + ", ".join(_bases))
     R.assumptions += ["-i grad and -i r x grad are Hermitian: K(b,a) = conj(K(a,b))^T in exact arithmetic", "the 1-D overlap/moment recurrences are decided under C01/C07",
                       "assembly under C09/C11"]
     return ("HERM: both kernels' return expressions are classified (imaginary unit) x (real) with constant prefactor exactly -i, and the "
